@@ -74,6 +74,16 @@ class Cfg:
             else: self._res[key] = absval.graph_reach(self._sg, blocked_nodes, blocked_edges) & r
         return self._res[key]
 
+    def must_pass_sens(self, src, dst, through):
+        """must_pass with infeasible branches pruned (the `?` of a helper's Err return cannot take the success edge)"""
+        if isinstance(dst, int): dst = [dst]
+        if src in set(through): return True
+        if self.must_pass(src, dst, through): return True
+        from . import absval
+        if getattr(self, "_du", None) is None: self._du = DefUse(self.body)
+        r = absval.sens_reach(self, self._du, [(src, {})], blocked_nodes=set(through))
+        return not any(d in r for d in dst)
+
     def edge_dominates(self, edge, node):
         """node is unreachable from entry unless `edge` (src,label,dst) is taken"""
         if node not in self.reach(0, blocked_edges={edge}): return True
